@@ -3,7 +3,6 @@ package object
 import (
 	"fmt"
 	"io"
-	"math"
 	"slices"
 	"sort"
 	"strings"
@@ -178,7 +177,11 @@ func (e *Environment) SaveGlobals(to io.Writer, maxValueLen int) (int, error) {
 			//   x=func(a,b){a+b}
 			// fallthrough.
 		}
-		val := sourceForm(v)
+		val, ok := sourceForm(v)
+		if !ok {
+			log.Warnf("Skipping %q as it's nested too deep", k)
+			continue
+		}
 		if maxValueLen > 0 && len(val) > maxValueLen {
 			log.Warnf("Skipping %q as it's too long (%d > %d)", k, len(val), maxValueLen)
 			continue
@@ -198,45 +201,12 @@ func (e *Environment) SaveGlobals(to io.Writer, maxValueLen int) (int, error) {
 
 // sourceForm is Inspect() spelled so that reading it back gives the same value of the same type: a float keeps
 // a float spelling (Inspect prints 1.0 as 1) and the smallest integer isn't written as minus an out of range literal.
-func sourceForm(v Object) string {
-	switch o := v.(type) {
-	case Float:
-		str := o.Inspect()
-		if math.IsNaN(o.Value) || math.IsInf(o.Value, 0) || strings.ContainsAny(str, ".e") {
-			return str
-		}
-		return str + ".0"
-	case Integer:
-		if o.Value == math.MinInt64 {
-			return "(-9223372036854775807-1)"
-		}
-		return o.Inspect()
-	case SmallArray, BigArray:
-		out := strings.Builder{}
-		out.WriteString("[")
-		for i, el := range Elements(v) {
-			if i > 0 {
-				out.WriteString(",")
-			}
-			out.WriteString(sourceForm(Value(el)))
-		}
-		out.WriteString("]")
-		return out.String()
-	case Map:
-		out := strings.Builder{}
-		out.WriteString("{")
-		for i, kv := range o.mapElements() {
-			if i > 0 {
-				out.WriteString(",")
-			}
-			out.WriteString(sourceForm(Value(kv.Key)))
-			out.WriteString(":")
-			out.WriteString(sourceForm(Value(kv.Value)))
-		}
-		out.WriteString("}")
-		return out.String()
-	}
-	return v.Inspect()
+// ok is false for a value nested too deep to be written (and read back).
+func sourceForm(v Object) (string, bool) {
+	out := strings.Builder{}
+	w := inspector{out: &out, source: true}
+	w.object(v, 0)
+	return out.String(), !w.cut
 }
 
 func (e *Environment) HasRegisters() bool {
